@@ -428,10 +428,15 @@ class AsyncHTTP2Connection(AsyncConnectionInterface):
         async with self._read_lock:
             if self._connection_terminated is not None:
                 last_stream_id = self._connection_terminated.last_stream_id
+                # The stream that this flow of control is working on: the one it
+                # reads events for, or the one whose flow control it waits for.
+                own_stream_id = (
+                    stream_id if stream_id is not None else flow_control_stream_id
+                )
                 if (
-                    stream_id
+                    own_stream_id
                     and last_stream_id
-                    and stream_id > last_stream_id
+                    and own_stream_id > last_stream_id
                     and not has_one_shot_body(request)
                 ):
                     self._request_count -= 1
